@@ -321,9 +321,12 @@ class URI(with_metaclass(URIType)):
 				yield quote(password, Percent.USERINFO)
 			yield b'@'
 		try:
-			yield host.encode('idna')
+			host = host.encode('idna')
 		except UnicodeError:
 			raise InvalidURI(_('Invalid host.'))
+		if not (host.startswith(b'[') and host.endswith(b']')):
+			host = Percent.quote(host, Percent.UNRESERVED + Percent.SUB_DELIMS)  # a delimiter in a registered name is data
+		yield host
 		if port and integer(port) != self.PORT:
 			yield b':%d' % integer(port)
 
